@@ -61,6 +61,7 @@ func (t *websocketTransport) Send(ctx context.Context, e envelope) error {
 		return err
 	}
 
+	verifPoint("ws.send.spawn")
 	errChan := make(chan error)
 	go func() {
 		errChan <- t.conn.WriteJSON(e)
@@ -90,6 +91,7 @@ func (t *websocketTransport) Receive(ctx context.Context) (envelope, error) {
 		return nil, err
 	}
 
+	verifPoint("ws.recv.spawn")
 	rawChan := make(chan rawEnvelope)
 	errChan := make(chan error)
 	go func() {
